@@ -137,9 +137,9 @@ def outcome_of_result(call: dict, r) -> dict:
 # L1: sequential histories vs the register model
 # --------------------------------------------------------------------------- #
 
-BH_KINDS = ["none", "empty", "current", "stale", "future", "flip", "trunc8", "trunc32", "extend", "upper", "newline"]
+BH_KINDS = ["none", "empty", "current", "stale", "future", "flip", "trunc8", "trunc32", "extend", "upper", "newline", "of_empty"]
 BH_WEIGHTS = [("none", 5), ("current", 8), ("stale", 4), ("future", 3), ("flip", 2), ("trunc8", 2), ("trunc32", 1),
-              ("extend", 1), ("upper", 1), ("newline", 1), ("empty", 1), ("spaces", 1), ("padded", 1), ("prefixed", 1)]
+              ("extend", 1), ("upper", 1), ("newline", 1), ("empty", 1), ("spaces", 1), ("padded", 1), ("prefixed", 1), ("of_empty", 3)]
 STEP_KINDS = [("ext_bom", 1), ("ext_fm_only", 1), ("ext_trailing_ws", 1), ("ext_nonl", 1), ("ext_stealth", 3), ("ext_empty", 2), ("ext_crlf", 2), ("ext_binary", 1), ("content", 8), ("changes", 5), ("normalize", 3), ("content_dry", 2), ("changes_dry", 1), ("normalize_dry", 1),
               ("cli_content", 2), ("cli_changes", 2), ("atomic", 2), ("ext_valid", 3), ("ext_invalid", 1), ("ext_delete", 1),
               ("bad_both", 1), ("bad_path", 1), ("bad_content", 2), ("ext_lenient", 2)]
@@ -226,6 +226,10 @@ def bh_value(kind: str, cur: bytes | None, prev_hashes: list, future_text: str |
             return sha_text(docs.canonical(future_text)) if future_text else sha_text("future")
         except Exception:
             return sha_text("future")
+    if kind == "of_empty":
+        # the digest of the EMPTY text: what a client holds after it saw the file empty, and what any "could not read it,
+        # call it ''" fallback inside the code would compare against
+        return sha_text("")
     if kind == "flip":
         return base[:-1] + ("0" if base[-1] != "0" else "1")
     if kind == "trunc8":
@@ -418,6 +422,11 @@ def _run_history(case, stats, root, target, TARGET):
         if bh_norm and bh_norm.startswith("sha256:"):
             bh_norm = bh_norm[7:]
         different_digest = bool(bh) and exists and decodable and bh_norm != cur_h
+        if bool(bh) and exists and not decodable:
+            # bytes that are not UTF-8 have no text hash; the only digest "the file's content hashes to" can then mean is that of
+            # the raw bytes.  Any other base_hash (e.g. the digest of the empty text, which a fallback "could not decode it,
+            # call it ''" would produce) does not match the file, whatever reading of the property one takes
+            different_digest = bh_norm != sha_bytes(cur)
         same_digest_other_spelling = bool(bh) and exists and decodable and bh_norm == cur_h and bh != cur_h
         status = out["status"]
         if status == "raised":
@@ -442,8 +451,8 @@ def _run_history(case, stats, root, target, TARGET):
             V("bad-call-succeeded", f"{kind} with invalid arguments returned success: {out}", k)
         if different_digest:
             if status == "success" and not dry:
-                V("cas", f"{kind} carried base_hash {bh!r} != current {cur_h[:12]} and still succeeded", k)
-            elif clean and status == "error" and out.get("code") != "E_HASH":
+                V("cas", f"{kind} carried base_hash {bh!r} != current {(cur_h or 'bytes:' + sha_bytes(cur))[:18]} and still succeeded", k)
+            elif clean and decodable and status == "error" and out.get("code") != "E_HASH":
                 # legitimate earlier stages: changes/normalize need a parseable file? no - hash check precedes parsing.
                 # CLI content mode parses the new content first (never fails here: content is valid); CLI changes parses the file first.
                 # the only call that legitimately fails earlier: CLI changes mode parses the existing file before the CAS check
@@ -732,7 +741,7 @@ def abstract_trace(abstract, installs, outs, writers) -> str:
 # --------------------------------------------------------------------------- #
 
 L1X_ALPHABET = [(k, b) for k in ("content", "changes", "normalize", "content_dry") for b in ("none", "current", "stale", "future")] + [
-    ("ext_valid", "none"), ("ext_empty", "none")]
+    ("ext_valid", "none"), ("ext_empty", "none"), ("ext_binary", "none"), ("content", "of_empty")]
 
 
 def l1x_count(maxlen: int) -> int:
@@ -766,6 +775,8 @@ def l1x_history(index: int) -> dict:
             st["text"] = f"===DOC===\nMETA:\n  TYPE::TEST\n  VERSION::\"1.0\"\nMARK::e{mk}\nK0::x -> y\n===END===\n"
         elif kind == "ext_empty":
             st["text"] = ""
+        elif kind == "ext_binary":
+            st["text"] = None
         steps.append(st)
     init = "===DOC===\nMETA:\n  TYPE::TEST\n  VERSION::\"1.0\"\nMARK::init\nK0::a -> b\n===END===\n"
     return {"layer": "L1", "init": init, "steps": steps, "prop": PROP, "seed": 0, "enumerated": True}
